@@ -245,3 +245,42 @@ Fixpoint height_after_fin (saved : list N) (t : list obs) : bool :=
       fst step && height_after_fin (snd step) rest
   end.
 Definition c08_height_after_fin (t : list obs) : bool := height_after_fin [] t.
+
+(** C07 (state-machine half): the consensus strategy is only ever offered proposed headers whose validator set and next
+    validator set are the ones the chain prescribes for the height: the set the driver returned when finalizing h-2
+    (genesis: 15) and the one it returned when finalizing h-1.  A header altered in transit (other keys, or the same keys
+    with other powers: mask + 16 in the harness) must never reach ConsiderProposedBlocks / ChooseProposedBlock.
+    The proposed headers are parsed out of the encoded views (Model/SMWire.enc_view); 255 = the machine's own proposal. *)
+Definition skip_map (l : list N) : list N := match l with n :: t => skipn (2 * N.to_nat n) t | [] => [] end.
+Fixpoint take_phs (n : nat) (l : list N) : list (N * (N * N)) :=
+  match n, l with
+  | S k, hsh :: _ :: vs :: nvs :: _ :: _ :: t => (hsh, (vs, nvs)) :: take_phs k t
+  | _, _ => []
+  end.
+Definition view_phs (enc : list N) : list (N * (N * N)) :=
+  match skip_map (skip_map (skipn 8 enc)) with n :: t => take_phs (N.to_nat n) t | [] => [] end.
+Definition fin_vs (fins : list (N * N)) (h : N) : N :=
+  match find (fun f : N * N => fst f =? h) fins with Some f => snd f | None => 15 end.
+Definition req_hashes (it : item) : list N :=
+  match it with _ :: n :: t => firstn (N.to_nat n) t | _ => [] end.
+
+Fixpoint considered_ok (fins : list (N * N)) (h : N) (seen : list (N * (N * N))) (t : list obs) : bool :=
+  match t with
+  | [] => true
+  | (ev, its) :: rest =>
+      let seen0 := if (hd0 ev =? 3) || (hd0 ev =? 5) then seen ++ view_phs (tl ev) else seen in
+      let step := fold_left (fun (acc : bool * (list (N * N) * (N * list (N * (N * N))))) it =>
+                    let '(ok, (fs, (hh, sn))) := acc in
+                    if (hd0 it =? 19) && (nthN it 6 =? 0) then (ok, (fs ++ [(nthN it 1, nthN it 4)], (hh, sn)))
+                    else if hd0 it =? 1 then (ok, (fs, (nthN it 1, if nthN it 1 =? hh then sn else [])))
+                    else if (hd0 it =? 3) || (hd0 it =? 4) then
+                      let cur := if hh <? 2 then 15 else fin_vs fs (hh - 2) in
+                      let nxt := if hh <? 1 then 15 else fin_vs fs (hh - 1) in
+                      (ok && forallb (fun x => (x =? 255) ||
+                                      existsb (fun p : N * (N * N) => (fst p =? x) && (fst (snd p) =? cur) && (snd (snd p) =? nxt)) sn)
+                                     (req_hashes it), (fs, (hh, sn)))
+                    else acc) its (true, (fins, (h, seen0))) in
+      let '(ok, (fs, (hh, sn))) := step in
+      ok && considered_ok fs hh sn rest
+  end.
+Definition c07_sm_considered_match (t : list obs) : bool := considered_ok [(0, 15)] 0 [] t.
